@@ -9,7 +9,7 @@ from pyvc.interp import Interp, PathState
 from pyvc.treeheap import LinksHeap
 from pyvc.values import Obj, OutOfSubset, PyRaise
 
-from .common import REPO, Result, run_venv
+from .common import REPO, Result, run_venv, tierb_json
 
 STRUCT = ("left", "right", "parent")
 # "all binary trees" includes trees whose nodes are instances of different subclasses
@@ -103,7 +103,7 @@ def run(tier: str, seed: int) -> int:
     if p.returncode not in (0, 1):
         R.engine_errors.append("tier-B failed: " + p.stderr[-300:])
     else:
-        bounded = json.loads(p.stdout)
+        bounded = tierb_json(p, R)
         for f in bounded.get("failures", [])[:5]:
             R.violation(f"bounded check on real code: rotate {f}", {"failure": f}, True)
     R.level = "proof" if not R.undecided else "other"
